@@ -57,6 +57,12 @@ pub(super) fn end_stream_decision(stream: &Stream) -> EndStreamAction {
         } else {
             EndStreamAction::ForwardUnterminated
         }
+    } else if stream.back.consumed {
+        // Part of the response already went out to the client (typically its
+        // head, before the backend's stream was reset or failed its
+        // Content-Length check): a default answer written now would land in
+        // the middle of that response. Cut it explicitly instead.
+        EndStreamAction::ForwardUnterminated
     } else if stream.front.consumed {
         EndStreamAction::SendDefault(502)
     } else {
